@@ -50,19 +50,23 @@ def endsValue (rs : List Region) (rem : Nat) : Bool :=
   | r :: _ => r.eb && r.endRem + 1 == rem
   | [] => false
 
-/-- Reads the first `k` characters of the remaining text and updates the flag: a blank keeps it (and sets it
-    when it ends a blank-ending value), a line continuation between tokens (`lcOk`) keeps it, anything else
-    clears it. -/
-def flagRun (rs : List Region) (lcOk : Bool) : Nat → Bool → List Char → Bool
-  | 0, b, _ => b
-  | _, b, [] => b
-  | k + 1, b, c :: t =>
-    if isBlank c then flagRun rs lcOk k (b || endsValue rs (t.length + 1)) t
-    else if lcOk && c == '\\' && t.head? == some '\n' then
-      match k, t with
-      | k' + 1, _ :: t' => flagRun rs lcOk k' b t'
-      | _, _ => b
-    else flagRun rs lcOk k false t
+/-- `\`+newline pairs (line continuations between tokens) in a stretch of text -/
+def markC : List Char → List (Char × Bool)
+  | a :: b :: t => if a == '\\' && b == '\n' then (a, true) :: (b, true) :: markC t else (a, false) :: markC (b :: t)
+  | l => l.map (·, false)
+
+/-- Reads characters (with their line-continuation mark; `rem` = characters up to the end of the text,
+    the first one included) and updates the flag: a line continuation keeps it, a blank keeps it and sets it
+    when it ends a blank-ending value, anything else clears it. -/
+def flagGo (rs : List Region) : Bool → List (Char × Bool) → Nat → Bool
+  | b, [], _ => b
+  | b, (c, lc) :: t, rem =>
+    flagGo rs (if lc then b else if isBlank c then b || endsValue rs rem else false) t (rem - 1)
+
+/-- Reads the first `k` characters of the remaining text `l` and updates the flag; line continuations are
+    recognised only between tokens (`lcOk`). -/
+def flagRun (rs : List Region) (lcOk : Bool) (k : Nat) (b : Bool) (l : List Char) : Bool :=
+  flagGo rs b (if lcOk then markC (l.take k) else (l.take k).map (·, false)) l.length
 
 /-- The alias (if any) that replaces the next word. -/
 def hcand (T : Table) (s : HState) : Option Alias :=
